@@ -87,6 +87,11 @@ def signature(fn: ast.FunctionDef, plain=False) -> HandlerSig:
 REC_NAMES = {"rec", "__call__"}
 
 
+class CondText(str):
+    """source text of a comprehension filter; .val is its abstract value"""
+    val = None
+
+
 class Evaluator:
     """Abstract evaluation of one function along one path."""
 
@@ -271,8 +276,9 @@ class Evaluator:
             self.loops.append(src)
             pushed += 1
             for c in g.ifs:
-                conds.append(_src(c))
-                self.ev(c)
+                ct = CondText(_src(c))
+                ct.val = self.ev(c)
+                conds.append(ct)
         if isinstance(e, ast.DictComp):
             k = self.ev(e.key)
             v = self.ev(e.value)
